@@ -63,8 +63,29 @@ def run(ctx):
         idx = l.edges.indices
         col, proper = colouring_for(rng, l)
         ctx.count("lattices")
+        if "lat_fp_prev" in dir() and lat_fp_prev is not None and core.lattice_fingerprint(lat_fp_prev[1], with_plaquettes=False) != lat_fp_prev[0]:
+            ctx.impl_violation(f"{lat_fp_prev[2]}: a Hamiltonian / bisection call modified the lattice it was given", dict(case=lat_fp_prev[2], lattice=zoo.lat_to_json(lat_fp_prev[1])))
+        lat_fp_prev = (core.lattice_fingerprint(l, with_plaquettes=False), l, name)
         if len({(min(a, b), max(a, b)) for a, b in idx.tolist()}) < E:
             ctx.count("lattices_with_parallel_edges")
+        # couplings of unusual magnitude / nearly equal couplings (exact dyadic numbers): the entry law only, judged against the independent accumulation
+        if col is not None:
+            for Jx in (np.array([1.0, 2.0, 3.0]) * 2.0 ** -30, np.array([1.0, 1.0 + 2.0 ** -18, 1.0 - 2.0 ** -18]), np.array([2.0 ** 20, 2.0 ** 20 + 1, 2.0 ** 20 - 2]),
+                       np.array([1.0, 1.0, 1.0 + 2.0 ** -40])):
+                ux = (1 - 2 * rng.integers(0, 2, size=E)).astype(np.int8)
+                try:
+                    Hx = ham.majorana_hamiltonian(l, col, ux, Jx)
+                    wantx = np.zeros((n, n), dtype=complex)
+                    for (a, b), jj, uu in zip(idx, Jx[col], ux):
+                        wantx[b, a] += 0.5j * jj * uu
+                        wantx[a, b] -= 0.5j * jj * uu
+                    if not np.array_equal(Hx, wantx):
+                        ctx.impl_violation(f"{name}: with couplings J = {Jx.tolist()} H is not the sum over edges of +(i/2) J[colour] u at [k,j] and its negative at [j,k] (max deviation "
+                                           f"{np.abs(Hx - wantx).max():.3e})", dict(case=name, lattice=zoo.lat_to_json(l), u=ux.tolist(), J=Jx.tolist(), coloring=[int(x) for x in col]))
+                        break
+                except Exception as ex:
+                    ctx.impl_violation(f"{name}: majorana_hamiltonian raised {type(ex).__name__}: {ex} for J = {Jx.tolist()}", dict(case=name, lattice=zoo.lat_to_json(l), J=Jx.tolist())); break
+                ctx.case((name, "J-magnitude", str(Jx.tolist())), nontrivial=True)
         for trial in range(2 if quick else 5):
             u = (1 - 2 * rng.integers(0, 2, size=E)).astype(np.int8)
             J = rng.integers(1, 4 * SJ, size=3) / SJ
@@ -144,8 +165,18 @@ def run(ctx):
                             if not np.all((be[:, 0] < n // 2) != (be[:, 1] < n // 2)):
                                 rep(f"bisection along the perfect-matching colour {along} leaves a dimer inside one half"); break
                             ctx.count("bisections_along_perfect_matching")
+                        # the same lattice object bisected with the colours renamed: what was found for another colouring must not be re-used
+                        c2 = ((np.asarray(c) + 1) % 3).astype(np.asarray(c).dtype)
+                        cls2 = idx[c2 == along]
+                        if len(cls2) * 2 == n and len(set(cls2.flatten().tolist())) == n:
+                            be2 = ham.bisect_lattice(l, c2, along).edges.indices[c2 == along]
+                            if not np.all((be2[:, 0] < n // 2) != (be2[:, 1] < n // 2)):
+                                rep(f"bisecting the same lattice again with the colours renamed leaves a dimer of colour {along} inside one half", second_coloring=c2.tolist()); break
                         if n % 2 == 0:
+                            Hb_keep = Hb.copy()
                             Hf = ham.majorana_to_fermion_ham(Hb)
+                            if not np.array_equal(Hb, Hb_keep) or not np.array_equal(ham.majorana_to_fermion_ham(Hb), Hf):
+                                rep("majorana_to_fermion_ham modified the Majorana matrix it was given (or a second conversion of the same matrix differs)"); break
                             s = n // 2
                             h, d = Hf[:s, :s], Hf[:s, s:]
                             ok = (np.allclose(Hf, Hf.conj().T, atol=1e-12 * scale, rtol=0) and np.allclose(Hf[s:, :s], d.conj().T, atol=1e-12 * scale, rtol=0)
